@@ -475,3 +475,19 @@ _c11c = PLANS["C11"]["steps"]
 PLANS["C11"]["steps"] = lambda tier, seed: _c11c(tier, seed) + [ws_live("access_ws_allow", "access", [])] + ([ws_live("access_ws_deny", "access", ["--mode", "deny"])] if tier == "thorough" else [])
 _c12c = PLANS["C12"]["steps"]
 PLANS["C12"]["steps"] = lambda tier, seed: _c12c(tier, seed) + [ws_live("corpus_ws", "corpus", ["--cases", "500" if tier == "quick" else "5000"])]
+
+PLANS["C19"] = {
+    "title": "A dead worker brings the whole tracker down",
+    "level": "fault_enumeration",
+    "engine": "faults",
+    "technique": "enumerated fault injection through worker-loop probes, one child process per scenario with the tracker in-process; verdict = run() returned Err within 10 s of the instant the probe fired",
+    "packages": ["vfaults"],
+    "parallel": 1,
+    "steps": lambda tier, seed: [{"name": "faults", "bin": "faults", "args": ["--par", "6" if tier == "quick" else "8"], "timeout_s": 1700}],
+    "min_evaluations": {"quick": 30, "thorough": 150},
+    "assumptions": ["this is the one property whose statement is a wall-clock bound; scenarios run a few at a time and a scenario whose probe never fired is inconclusive",
+                    "a worker 'stops' where its thread ends: sub-tasks of a glommio worker that end without ending the worker are not worker deaths"],
+    "level_text": "Fault enumeration: for udp (mio and io_uring), http and ws, every worker kind (socket i of n, swarm i of n, cleaning, statistics, signals, prometheus) is made to fail by a panic in its loop, a panic inside a detached per-connection task, an early return Ok or Err, a socket bind failure (non-local address) or a prometheus bind failure (port in use), at the first iteration or after serving requests, with 1-3 workers of the kind (42 scenarios quick, about 190 thorough); each scenario records when the fault fired and when run() returned.",
+    "level_note": "Trusted: the probe handler (fires once, only in the targeted thread), the child-process clock.",
+    "design_ref": "3/C19",
+}
